@@ -195,24 +195,33 @@ func observe(c *Case, em types.EntityMap) (got bool, err error) {
 	}
 	// another observation point: the same question through the partial evaluator - batch authorization in which the
 	// queried entity is the only value of a variable (scope clauses are decided by partial evaluation there)
-	breq := batch.Request{Principal: req.Principal, Action: req.Action, Resource: req.Resource, Context: req.Context, Variables: batch.Variables{"v": {src}}}
-	switch c.Form[:7] {
-	case "scope-p":
-		breq.Principal = batch.Variable("v")
-	case "scope-a":
-		breq.Action = batch.Variable("v")
-	default:
-		breq.Resource = batch.Variable("v")
-	}
-	var bdec []cedar.Decision
-	if err := batch.Authorize(context.Background(), ps, em, breq, func(r batch.Result) error {
-		bdec = append(bdec, r.Decision)
-		return nil
-	}); err != nil || len(bdec) != 1 {
-		return false, fmt.Errorf("batch.Authorize with the queried entity as a variable: %d results, error %v", len(bdec), err)
-	}
-	if bdec[0] != dec {
-		return false, fmt.Errorf("cedar.Authorize decides %v, batch.Authorize with the queried entity as a variable decides %v", dec, bdec[0])
+	// and one in which the queried entity is concrete and an unrelated context field is the variable (the scope is then
+	// decided while the policy is partially evaluated)
+	for _, variant := range []string{"the queried entity as a variable", "an unrelated context field as the variable"} {
+		breq := batch.Request{Principal: req.Principal, Action: req.Action, Resource: req.Resource, Context: req.Context, Variables: batch.Variables{"v": {src}}}
+		if variant == "the queried entity as a variable" {
+			switch c.Form[:7] {
+			case "scope-p":
+				breq.Principal = batch.Variable("v")
+			case "scope-a":
+				breq.Action = batch.Variable("v")
+			default:
+				breq.Resource = batch.Variable("v")
+			}
+		} else {
+			breq.Context = types.NewRecord(types.RecordMap{"unrelated": batch.Variable("v")})
+			breq.Variables = batch.Variables{"v": {types.Long(1)}}
+		}
+		var bdec []cedar.Decision
+		if err := batch.Authorize(context.Background(), ps, em, breq, func(r batch.Result) error {
+			bdec = append(bdec, r.Decision)
+			return nil
+		}); err != nil || len(bdec) != 1 {
+			return false, fmt.Errorf("batch.Authorize with %s: %d results, error %v", variant, len(bdec), err)
+		}
+		if bdec[0] != dec {
+			return false, fmt.Errorf("cedar.Authorize decides %v, batch.Authorize with %s decides %v", dec, variant, bdec[0])
+		}
 	}
 	return dec == cedar.Allow, nil
 }
